@@ -6,9 +6,10 @@ import ZvbiModel.Net.XdsStr
 
 ```
 mask <m>                               register the (single) handler with event mask m (0 = unregister)
-frame <t_us> [v:<13B>|t:<42B>|w:<2B>|n:<bytes>|c:<bytes>|p:<pgno>]*    one vbi_decode call
+frame <t_us> [v:<13B>|t:<42B>|w:<2B>|j:<3B>|n:<bytes>|c:<bytes>|p:<pgno>]*    one vbi_decode call
 vps <13B> <t_us> | p830 <42B> <t_us> | wss <2B> <t_us>                 = frame with one line
 xdsname <bytes> <t_us> | xdscall <bytes> <t_us> | page <pgno> <t_us>   = frame with one line
+cpr <3B> <t_us>                                                        = frame with one WSS-CPR1204 (525-line) word
 chsw | cached <pgno> | state
 note <words>                           scenario annotation read by the oracle (no effect, `ok`)
 lookup <1|2|3> <cni>                   station_lookup (1 = VPS, 2 = 8/30-1, 3 = 8/30-2)
@@ -62,6 +63,9 @@ def parseLine (tok : String) : Option Line :=
   | ["n", h] => (parseHex h).map (Line.xds 1)
   | ["c", h] => (parseHex h).map (Line.xds 2)
   | ["p", n] => (parseNat n).map Line.page
+  | ["j", h] => match hexN h 3 with
+    | some (a :: _) => some (Line.cpr a)
+    | _ => none
   | _ => none
 
 def parseLines : List String → Option (List Line)
@@ -86,6 +90,8 @@ def parseOp (ws : List String) : Option Op :=
     | some l, some t => some (Op.frame t [l]) | _, _ => none
   | ["xdscall", h, t] => match parseLine ("c:" ++ h), parseNat t with
     | some l, some t => some (Op.frame t [l]) | _, _ => none
+  | ["cpr", h, t] => match parseLine ("j:" ++ h), parseNat t with
+    | some l, some t => some (Op.frame t [l]) | _, _ => none
   | ["page", n, t] => match parseLine ("p:" ++ n), parseNat t with
     | some l, some t => some (Op.frame t [l]) | _, _ => none
   | ["chsw"] => some Op.chsw
@@ -95,7 +101,7 @@ def parseOp (ws : List String) : Option Op :=
   | _ => none
 
 def knownOps : List String :=
-  ["mask", "frame", "vps", "p830", "wss", "xdsname", "xdscall", "page", "chsw", "cached", "state", "note", "lookup", "tbl",
+  ["mask", "frame", "vps", "p830", "wss", "cpr", "xdsname", "xdscall", "page", "chsw", "cached", "state", "note", "lookup", "tbl",
    "strfu", "layout"]
 
 def step (s : State) (ws : List String) : State × String :=
